@@ -9,7 +9,7 @@ HOOKS="--cfg httparse_verif"
 run_miri() {
     local dir="$1" flags="$2" mflags="$3"; shift 3
     (cd "$dir" && MIRIFLAGS="-Zmiri-disable-isolation $mflags" RUSTFLAGS="$HOOKS $flags" \
-        cargo +nightly miri run --offline --target-dir "$dir/target-miri" -- "$@" 2>&1)
+        timeout "${MIRI_TIMEOUT:-1500}" cargo +nightly miri run --offline --target-dir "$dir/target-miri" -- "$@" 2>&1)
 }
 
 # write_replay <file> <json>
